@@ -802,6 +802,15 @@ def c19(tier, seed):
         row = [[a, c, (c * 7 + 3) % (a + 1), a - c] for c in range(0, a + 1)]
         scs.append({"id": "premultiplied-pairs-alpha-%d" % a, "fam": "views", "kind": "views", "w": a + 1, "h": 1, "ctor": "from_vec",
                     "pixels": row, "writes": [], "solid": [255, 255, 255, 255]})
+    # the views are the surface also while a layer is open: every third views scenario again with a layer pushed (and left
+    # open) straight after construction
+    inl = []
+    for sc in [s for s in scs if s.get("kind") == "views"][seed % 3::3]:
+        w = dict(sc)
+        w["id"] = str(sc["id"]) + "-layer-open"
+        w["layer"] = True
+        inl.append(w)
+    scs += inl
     simple_validate("C19", v, scs, "all", "Trace_Views", sigfn=lambda sc, tup: {"fam": "views", "what": tup[3]})
     v.samples = [scs[3], scs[-1]]
     return v.finish()
@@ -837,6 +846,20 @@ def shader_cells(scs):
     return cells
 
 
+def with_history(scs, seed, step=6):
+    """Every step-th shade scenario again after a history that must not matter (layer pushed and popped - visible or
+    invisible -, clip pushed and popped) between set_transform and the draw."""
+    out = []
+    for k, sc in enumerate(scs[seed % step::step]):
+        if "clip" in sc:
+            continue
+        w = dict(sc)
+        w["pre"] = ("layer", "layer0", "clip")[k % 3]
+        w["id"] = str(sc["id"]) + "-after-" + w["pre"]
+        out.append(w)
+    return out
+
+
 @prop("C13")
 def c13(tier, seed):
     v = Verdicts("C13", tier, seed)
@@ -850,6 +873,7 @@ def c13(tier, seed):
     v.add_tlc(g)
     v.exhaustive = th
     scs += drive("C13", "shade-image", seed, 4000 if th else 600)
+    scs += with_history(scs, seed)
     cells = shader_cells(scs)
     v.extra["shader_decision_table"] = cells
     missing = [k for k in ("%s/%s/%s/%s" % (e, f, t, a) for e in ("Pad", "Repeat") for f in ("Nearest", "Bilinear")
@@ -877,6 +901,7 @@ def c12(tier, seed):
         scs += s1
     v.exhaustive = th
     scs += drive("C12", "shade-grad", seed, 2500 if th else 250)
+    scs += with_history(scs, seed)
     scs += known_scenarios("C12", "shade")
     simple_validate("C12", v, scs, "all", "Trace_Shade",
                     sigfn=lambda sc, tup: {"fam": "shade", "kind": sc["src"]["kind"],
